@@ -69,7 +69,11 @@ NoTbl == [rows |-> 0, cols |-> 0, hm |-> <<>>, vm |-> <<>>, mp |-> <<>>, rc |-> 
 
 \* ------------------------------------------------------------ alphabets
 Wrappers(f) == IF f = "docx" THEN {"r", "span", "link", "ins", "sdt"} ELSE {"r", "span", "link"}
-Atoms(f)    == IF f = "docx" THEN {"t", "sym", "tab", "br"} ELSE {"t", "tab", "br", "s"}
+\* "eh" / "ef": the text of the header / footer line (w901 / w902) written in the body - a
+\* body paragraph that equals a header / footer line (used by the history documents)
+InlineAtoms(f) == IF f = "docx" THEN {"t", "sym", "tab", "br"} ELSE {"t", "tab", "br", "s"}
+Atoms(f)    == InlineAtoms(f) \cup {"eh", "ef"}
+IsEcho(b, a) == b.k = "P" /\ Len(b.ch) = 1 /\ b.ch[1].w = "r" /\ b.ch[1].a = <<a>>
 Hows        == {"builtin", "custom1", "custom2", "outline"}
 Bearing(a)  == a \in {"t", "sym"}
 
@@ -163,7 +167,11 @@ BlockOK(f, b) ==
           /\ \A i \in 1..Len(b.ch) : /\ b.ch[i].w \in Wrappers(f)
                                      /\ Len(b.ch[i].a) >= 1
                                      /\ \A j \in 1..Len(b.ch[i].a) : b.ch[i].a[j] \in Atoms(f)
-          /\ NTok(b) >= 1                       \* no token-less paragraphs
+          \* no token-less paragraphs, except the echo of the header / footer line, which is
+          \* a paragraph of its own (the whole paragraph equals the line)
+          /\ NTok(b) >= 1 \/ IsEcho(b, "eh") \/ IsEcho(b, "ef")
+          /\ \A i \in 1..Len(b.ch) : \A j \in 1..Len(b.ch[i].a) :
+                 b.ch[i].a[j] \in {"eh", "ef"} => IsEcho(b, b.ch[i].a[j])
     \* DOCX has nine heading levels (outline levels 0..8, Heading1..Heading9), ODT ten
     /\ b.k = "H" => b.lvl \in 1..(IF f = "docx" THEN 9 ELSE 10) /\ b.how \in Hows
     \* list items: any depth (a list may start deep or jump levels); "decimalR" is a second
@@ -193,6 +201,8 @@ MinLI(body) == LET ls == {body[i].lvl : i \in {q \in 1..Len(body) : body[q].k = 
 IsDoc(d) ==
     /\ d.fmt \in {"docx", "odt"}
     /\ d.hdr \in {0, 1} /\ d.ftr \in {0, 1}
+    \* a body paragraph can only equal a header / footer line that exists
+    /\ \A i \in 1..Len(d.body) : (IsEcho(d.body[i], "eh") => d.hdr = 1) /\ (IsEcho(d.body[i], "ef") => d.ftr = 1)
     /\ \A i \in 1..Len(d.body) : BlockOK(d.fmt, d.body[i])
     /\ ListOK(d.body)
     /\ SheetOK(d.fmt, d.sheet)
